@@ -407,6 +407,7 @@ func (d *cnDriver) step() error {
 		if i == 0 {
 			continue
 		}
+		r.bgTxs = append(append([][]byte{}, mempool...), d.sent[:min(len(d.sent), 5)]...)
 		path := pathOf[i]
 		if strings.HasPrefix(path, "restart") {
 			if err := r.restart(); err != nil {
@@ -583,6 +584,7 @@ func consRun(args []string) int {
 	onDisk := fs.Bool("ondisk", true, "validator replicas keep their state on disk (enables restart paths)")
 	maxVals := fs.Int("maxvals", 3, "scheduler MaxValidators")
 	extraNodes := fs.Int("extranodes", 0, "additional validator nodes run by entity 0 (per-entity limit stays 1)")
+	concurrent := fs.Bool("concurrent", true, "run CheckTx / EstimateGas / state queries in goroutines while validator replicas execute blocks")
 	logLevel := fs.String("log", "", "oasis-core log level to stderr (debug|info|warn|error); empty = no logging")
 	fs.Parse(args)
 	if *logLevel != "" {
@@ -634,6 +636,7 @@ func consRun(args []string) int {
 			fmt.Fprintln(os.Stderr, "replica:", err)
 			return 2
 		}
+		r.concurrent = *concurrent
 		d.reps = append(d.reps, r)
 	}
 	defer func() {
@@ -661,7 +664,13 @@ func consRun(args []string) int {
 	if *summ != "" {
 		writeJSONFile(*summ, map[string]any{
 			"blocks": d.height, "events": d.nEvents, "diverged": d.diverged, "panics": d.panics, "rejects": d.rejects, "paths": d.paths,
-			"tx_kinds": d.txKinds, "error": runErr, "replicas": len(d.reps),
+			"tx_kinds": d.txKinds, "error": runErr, "replicas": len(d.reps), "concurrent_calls": func() int {
+				n := 0
+				for _, r := range d.reps {
+					n += r.bgCalls
+				}
+				return n
+			}(),
 		})
 	}
 	return 0
